@@ -360,7 +360,8 @@ def rule_foreign_write_inventory(check, rule, cg=None):
                         if isinstance(v, ast.Call):
                             fn = norm(v.func)
                             if fn.split('.')[-1] in ('replace', 'copy', 'dict', 'list', 'set', 'OrderedDict', 'copy_sources') or fn.startswith('super().') \
-                                    or fn.split('.')[-1] in ('_upgrade', 'cls') or fn[:1].isupper() or fn.split('.')[-1][:1].isupper():
+                                    or fn.split('.')[-1] in ('cls',) or fn.split('.')[-1][:1].isupper():
+                                # (`X._upgrade(obj, ...)` is *not* in this list: it hands an already upgraded object back unchanged)
                                 fresh.add(t.id)
                         else:
                             fresh.add(t.id)
